@@ -34,7 +34,7 @@ def one(name):
             if r.returncode:
                 return name, 'patch does not apply to HEAD: ' + r.stderr[:200], {}
         out = {}
-        for c in [meta['property']]:
+        for c in meta.get('recheck_checks', [meta['property']]):
             env = dict(os.environ, VERIF_REPO=wt, PYTHONHASHSEED='0', PYTHONDONTWRITEBYTECODE='1', VERIF_SHARDS='8',
                        VERIF_EVIDENCE_DIR=os.path.join(wt, '.ev'), VERIF_FOUND_DIR=os.path.join(wt, '.found'))
             r = subprocess.run(['/venv/bin/python', os.path.join(VERIF, 'vcheck.py'), c, '--tier', 'quick'], cwd=VERIF, env=env,
